@@ -7,7 +7,9 @@ from .C09 import brute, impl_loops, loops_precondition
 from lapy import TriaMesh
 
 
-def impl_refine(v, t, it, vdtype=None):
+def impl_refine(v, t, it, vdtype=None, pres=None):
+    if pres:
+        v, t = gen.present(v, t, pres)
     if vdtype is not None:
         v = np.asarray(v).astype(vdtype)
     m = TriaMesh(v, t)
@@ -37,7 +39,13 @@ class Check(BaseCheck):
             it = k % (3 if self.quick else 4)
             if len(c["t"]) * 4 ** it > (700 if self.quick else 6000):
                 it = 1
-            yield dict(v=c["v"], t=c["t"], it=it, name=c["name"])
+            v, t = c["v"], c["t"]
+            name = c["name"]
+            if k % 5 == 3:
+                v, t = gen.add_free(gen.rng_for(self.seed, "c11free", k), v, t, 2); name += "+free"
+            elif k % 5 == 4:
+                v, t = gen.add_trailing_free(gen.rng_for(self.seed, "c11free", k), v, t, 1 + k % 2); name += "+trailing-free"
+            yield dict(v=v, t=t, it=it, name=name, pres=c.get("pres"))
         # vertex arrays of integer dtype (voxel-grid meshes): midpoints are half-integers
         ov, ot = gen.octahedron()
         yield dict(v=np.round(ov * 3), t=ot, it=1, name="int-octahedron", vdtype="int32")
@@ -48,7 +56,7 @@ class Check(BaseCheck):
         fails = []
         for c in self.cases():
             v, t, it = c["v"], c["t"], c["it"]
-            res = core.call(impl_refine, v, t, it, c.get("vdtype"))
+            res = core.call(impl_refine, v, t, it, c.get("vdtype"), c.get("pres"))
             r = wire.Reply(drv.ask("refine %d %s %s" % (it, wire.verts(v), wire.elems(t))))
             stats.case(core.mesh_key(v, t, it), cls=["class:" + c["name"], "it:%d" % it], sample=dict(name=c["name"], nv=len(v), nt=len(t), it=it))
             if res[0] != "ok" or r.status != "ok":
@@ -73,7 +81,7 @@ class Check(BaseCheck):
         v = np.asarray(case["v"], float); t = np.asarray(case["t"], dtype=np.int64); it = int(case["it"])
         if len({frozenset(int(x) for x in tr) for tr in t}) < len(t):
             case = dict(case, input_class="duplicate-vertex-set")      # two triangles on the same three vertices (finding F14)
-        res = core.call(impl_refine, v, t, it, case.get("vdtype"))
+        res = core.call(impl_refine, v, t, it, case.get("vdtype"), case.get("pres"))
         if res[0] != "ok":
             return core.Violation("runs", "refine_ raised %s" % (res[1:],), case)
         v2, t2, m2 = res[1]
